@@ -355,9 +355,19 @@ def r_guard(prog, tier):
     f = prog.func('transitions', 'gap')
     cfg = f.cfg
     appends = []
+    tvars = set()
     for n in cfg.eval_nodes():
-        if n.kind == 'stmt' and unparse(n.ast).startswith('transitions.append('):
-            appends.append(n)
+        if n.kind == 'stmt' and isinstance(n.ast, ast.Assign) and isinstance(n.ast.value, ast.Call) \
+                and unparse(n.ast.value.func) == 'Transition' and isinstance(n.ast.targets[0], ast.Name):
+            tvars.add(n.ast.targets[0].id)
+    for n in cfg.eval_nodes():
+        if n.kind == 'stmt' and isinstance(n.ast, ast.Expr) and isinstance(n.ast.value, ast.Call) \
+                and isinstance(n.ast.value.func, ast.Attribute) and n.ast.value.func.attr == 'append' \
+                and len(n.ast.value.args) == 1:
+            a0 = n.ast.value.args[0]
+            if (isinstance(a0, ast.Name) and a0.id in tvars) or \
+                    (isinstance(a0, ast.Call) and unparse(a0.func) == 'Transition'):
+                appends.append(n)
     tdefs = {}
     for n in cfg.eval_nodes():
         if n.kind == 'stmt' and isinstance(n.ast, ast.Assign) and isinstance(n.ast.value, ast.Call) \
@@ -389,7 +399,8 @@ def r_guard(prog, tier):
         if ok:
             closure_tests.add(inner[-1].id)
             # the loop advances: d[0] = d[0].parent in every iteration
-            adv = any(m.kind == 'stmt' and unparse(m.ast) == 'd[0] = d[0].parent'
+            adv = any(m.kind == 'stmt' and isinstance(m.ast, ast.Assign) and isinstance(m.ast.targets[0], ast.Subscript)
+                      and unparse(m.ast.value) == unparse(m.ast.targets[0]) + '.parent'
                       and cfg.in_every_iteration(inner[-1].id, m.id) for m in cfg.eval_nodes())
             ok = adv
         obs.append(Ob('R-GUARD/GAP', f.fq, 'UNARY transitions are emitted by a closure loop (one per stacked unary node)',
@@ -406,27 +417,37 @@ def r_guard(prog, tier):
     # ---- top-down oracle: arity dispatch is exhaustive
     f = prog.func('transitions', 'topdown')
     cfg = f.cfg
-    apps = [n for n in cfg.eval_nodes() if n.kind == 'stmt' and unparse(n.ast).startswith('transitions.append(')]
+    chv = None
+    for n in cfg.eval_nodes():
+        if n.kind == 'stmt' and isinstance(n.ast, ast.Assign) and isinstance(n.ast.value, ast.Call) \
+                and prog.callee(n.ast.value, f) == ('trees', 'children') and n.loops and isinstance(n.ast.targets[0], ast.Name):
+            lp = cfg.nodes[n.loops[-1]]
+            if lp.kind == 'iter' and unparse(n.ast.value.args[0]) == unparse(lp.ast.target):
+                chv = n.ast.targets[0].id
+    ch = chv is not None
+    LC = 'len(%s)' % chv
+    apps = [n for n in cfg.eval_nodes() if n.kind == 'stmt' and isinstance(n.ast, ast.Expr) and isinstance(n.ast.value, ast.Call)
+            and isinstance(n.ast.value.func, ast.Attribute) and n.ast.value.func.attr == 'append'
+            and 'Transition(' in unparse(n.ast)]
     seen = {}
     for a in apps:
         for (fa, _) in facts_at(cfg, a.id):
-            if fa[0] == 'cmp' and fa[1] == 'len(children)' and fa[2] == '==' and fa[3] in ('0', '1', '2'):
+            if fa[0] == 'cmp' and fa[1] == LC and fa[2] == '==' and fa[3] in ('0', '1', '2'):
                 seen[fa[3]] = unparse(a.ast)
     kinds_ok = sorted(seen) == ['0', '1', '2'] and 'SHIFT' in seen['0'] and 'UNARY' in seen['1'] and 'BINARY' in seen['2']
     rz = [n for n in cfg.eval_nodes() if n.kind == 'stmt' and isinstance(n.ast, ast.Raise)
-          and all(('cmp', 'len(children)', '!=', k) in [x[0] for x in facts_at(cfg, n.id)] for k in ('0', '1', '2'))]
-    ch = any(n.kind == 'stmt' and unparse(n.ast) == 'children = trees.children(node)' for n in cfg.eval_nodes())
+          and all(('cmp', LC, '!=', k) in [x[0] for x in facts_at(cfg, n.id)] for k in ('0', '1', '2'))]
     obs.append(Ob('R-GUARD/TOPDOWN', f.fq, 'arity 0/1/2 of the ordered children map to SHIFT/UNARY/BINARY, anything else '
                   'is refused', kinds_ok and bool(rz) and ch, 'exhaustive if/elif chain with final raise' if kinds_ok and rz and ch
                   else 'chain incomplete: %s, final raise %s, ordered children %s' % (seen, bool(rz), ch),
                   construct='topdown-arity', line=f.node.lineno))
     hs = False
     for n in walk_own(f.node):
-        if isinstance(n, ast.IfExp) and unparse(n.test) == "children[0].data['head']" \
+        if isinstance(n, ast.IfExp) and unparse(n.test) == "%s[0].data['head']" % chv \
                 and const_str(n.body) == 'LEFT' and const_str(n.orelse) == 'RIGHT':
             hs = True
     obs.append(Ob('R-GUARD/TOPDOWN', f.fq, 'head side is LEFT iff the first ordered child is the head', hs,
-                  "'LEFT' if children[0].data['head'] else 'RIGHT'" if hs else 'head side expression changed',
+                  "'LEFT' if <ordered children>[0].data['head'] else 'RIGHT'" if hs else 'head side expression changed',
                   construct='topdown-side', line=f.node.lineno, nontrivial=False))
     # ---- binarization refuses unmarked trees before reading the mark
     f = prog.func('transform', '_binarize_tree')
